@@ -244,7 +244,7 @@ func (v *view) directOverlaps(from, to uint64) bool {
 // recording gater: InterceptUpgraded is the earliest public observation point of a new connection
 type recGater struct{ v *view }
 
-func (g *recGater) InterceptPeerDial(peer.ID) bool              { return true }
+func (g *recGater) InterceptPeerDial(peer.ID) bool               { return true }
 func (g *recGater) InterceptAddrDial(peer.ID, ma.Multiaddr) bool { return true }
 func (g *recGater) InterceptAccept(network.ConnMultiaddrs) bool  { return true }
 func (g *recGater) InterceptSecured(network.Direction, peer.ID, network.ConnMultiaddrs) bool {
@@ -479,10 +479,12 @@ const (
 	eFlapInbound
 	eFlapOutbound
 	eArmCloseInConnected
+	eBReconnectsViaRelay
 )
 
 var envNames = [...]string{"sleep", "B-reachable", "B-unreachable", "B-dials-A-direct", "A-dials-B-direct", "A-closes-direct", "B-closes-direct",
-	"A-closes-limited", "A.ClosePeer(B)", "B-dials-A-direct-and-closes", "A-dials-B-direct-and-closes", "arm:A-closes-next-direct-conn-inside-Connected"}
+	"A-closes-limited", "A.ClosePeer(B)", "B-dials-A-direct-and-closes", "A-dials-B-direct-and-closes", "arm:A-closes-next-direct-conn-inside-Connected",
+	"B-drops-every-conn-and-dials-A-through-the-relay"}
 
 type envStep struct {
 	kind int
@@ -522,7 +524,7 @@ func runWorld(t *testing.T, tape *simrt.Tape, g simrt.Gen, layerB bool) *common.
 		natB = g.Weighted(6, 1, 2)
 		latencies = [][]time.Duration{nil, {0, 5 * time.Millisecond, 40 * time.Millisecond}, {300 * time.Millisecond, 1500 * time.Millisecond}}[g.Weighted(3, 3, 1)]
 		directDialTimeout = []time.Duration{3 * time.Second, 10 * time.Second}[g.Weighted(3, 1)]
-		knowsDirect = g.Bool()         // A's peerstore also holds B's direct address
+		knowsDirect = g.Bool()               // A's peerstore also holds B's direct address
 		advertiseRelayAddr = !g.Chance(1, 4) // the nodes list a relay address among their hole punching addresses (as autorelay does)
 		w.wrapped = !g.Chance(1, 3)
 		timeouts = []time.Duration{40 * time.Second, 3 * time.Second, 90 * time.Second, 15 * time.Second}
@@ -562,14 +564,15 @@ func runWorld(t *testing.T, tape *simrt.Tape, g simrt.Gen, layerB bool) *common.
 		for i := 0; i < n; i++ {
 			var k int
 			if !layerB {
-				k = g.Weighted(1, 3, 2, 4, 3, 3, 2, 2, 1, 2, 2, 2)
+				k = g.Weighted(1, 3, 2, 4, 3, 3, 2, 2, 1, 2, 2, 2, 2)
 			} else {
-				k = g.Weighted(3, 1, 1, 1, 1, 3, 2, 3, 1, 1, 1, 1)
+				k = g.Weighted(3, 1, 1, 1, 1, 3, 2, 3, 1, 1, 1, 1, 2)
 			}
 			envs[e] = append(envs[e], envStep{kind: k, pre: durs[g.Int(len(durs))]})
 		}
 	}
 	samplePause := []time.Duration{500 * time.Millisecond, 30 * time.Millisecond, 4 * time.Second}[g.Int(3)]
+	aReserves := g.Bool() // A holds a reservation on the relay too, so that B can reach A through it (inbound limited connections on A)
 	if !layerB && g.Chance(1, 6) {
 		// bias towards the rarest race: a waiter is woken by a direct connection that is gone again before the waiter looks
 		initial = 0
@@ -590,6 +593,7 @@ func runWorld(t *testing.T, tape *simrt.Tape, g simrt.Gen, layerB bool) *common.
 		o.Logf("layer B: relay=%d(0 default limits,1 15s limit,2 unlimited) firewall A=%s B=%s latencies=%v directDialTimeout=%v A-knows-B's-direct-address=%v relay-address-advertised=%v wrapped-service=%v security=%s",
 			relayMode, natNames[natA], natNames[natB], latencies, directDialTimeout, knowsDirect, advertiseRelayAddr, w.wrapped, secu)
 	}
+	o.Logf(" A-has-reservation=%v", aReserves)
 	for c, ops := range callers {
 		for i, s := range ops {
 			o.Logf(" caller%d.%d %v", c, i, s)
@@ -724,7 +728,7 @@ func runWorld(t *testing.T, tape *simrt.Tape, g simrt.Gen, layerB bool) *common.
 			}
 		}
 
-		bDirect := net.JoinHostPort(ipB, "4001")
+		bDirect, aDirect := net.JoinHostPort(ipB, "4001"), net.JoinHostPort(ipA, "4001")
 		setReachable := func(v bool) {
 			if layerB {
 				if v {
@@ -752,6 +756,17 @@ func runWorld(t *testing.T, tape *simrt.Tape, g simrt.Gen, layerB bool) *common.
 			return
 		}
 		A.PS.AddAddrs(R.ID, []ma.Multiaddr{R.Addr}, peerstore.PermanentAddrTTL)
+		if aReserves {
+			if err := with(30*time.Second, func(ctx context.Context) error { return A.Host.Connect(ctx, R.AddrInfo()) }); err != nil {
+				o.Trouble = "A->R: " + err.Error()
+				return
+			}
+			if err := with(30*time.Second, func(ctx context.Context) error { _, err := client.Reserve(ctx, A.Host, R.AddrInfo()); return err }); err != nil {
+				o.Trouble = "reserve (A): " + err.Error()
+				return
+			}
+			B.PS.AddAddrs(A.ID, []ma.Multiaddr{circuitVia}, peerstore.PermanentAddrTTL)
+		}
 		A.PS.AddAddrs(B.ID, []ma.Multiaddr{circuitVia}, peerstore.PermanentAddrTTL)
 		if knowsDirect {
 			A.PS.AddAddrs(B.ID, []ma.Multiaddr{B.Addr}, peerstore.PermanentAddrTTL)
@@ -894,6 +909,15 @@ func runWorld(t *testing.T, tape *simrt.Tape, g simrt.Gen, layerB bool) *common.
 						A.Swarm.ClosePeer(B.ID)
 					case eArmCloseInConnected:
 						w.v[0].closeNext = true
+					case eBReconnectsViaRelay:
+						if aReserves {
+							B.Swarm.ClosePeer(A.ID)
+							n.SetRefused(aDirect, true)
+							serr = with(5*time.Second, func(ctx context.Context) error {
+								return B.Host.Connect(network.WithAllowLimitedConn(ctx, "c12"), peer.AddrInfo{ID: A.ID})
+							})
+							n.SetRefused(aDirect, false)
+						}
 					}
 					o.Logf("env%d %s done @%d t=%v err=%v", e, envNames[st.kind], simrt.Stamp(), simrt.Now(), serr != nil)
 				}
@@ -976,6 +1000,17 @@ func runWorld(t *testing.T, tape *simrt.Tape, g simrt.Gen, layerB bool) *common.
 		return o
 	}
 	var sig strings.Builder
+	for i, v := range w.v {
+		for _, id := range v.order {
+			// the relay of this run imposes limits (modes 0 and 1): every connection through it is a limited connection
+			if ci := v.conns[id]; ci.relayed && !ci.limited && relayMode != 2 {
+				o.Violate("C12/relayed-conn-not-marked-limited", "%c's connection %s (%v) runs through a relay that imposes limits but Stat().Limited is false", "AB"[i], id, ci.dir)
+			}
+			if ci := v.conns[id]; i == 0 && ci.limited && ci.dir == network.DirInbound {
+				w.probe("inbound-limited-conn-on-A")
+			}
+		}
+	}
 	w.judgeA(&sig, postDirect)
 	if layerB {
 		w.judgeB(&sig)
